@@ -2044,3 +2044,285 @@ func ruleUnwindPopped(c *Ctx, r *Report) {
 	}
 	r.analysed(rule, fname(tr))
 }
+
+// ---------------------------------------------------------------------------
+// R-CUT-TARGET-OWN (C03; added after seed C03d, which also exposed call_nth/2): a cut pops the promise stack
+// down to and including its target, so the target must still be on the stack when the cut runs. The promise
+// that Call(...) returns is the anonymous clause of the called goal - the barrier of the goal's OWN cuts: a
+// cut inside the goal pops it. A built-in that cuts to that promise afterwards (`p = Call(…); … cut(p, …)`)
+// finds nothing and empties the whole stack: every older choice point and every enclosing catch/3 is gone.
+// The target of a cut is a barrier handed down as a parameter, or a frame the function built itself
+// (Delay / cut / repeat / catch / &Promise{}), never the result of a call that runs a goal.
+
+func ruleCutTargetOwn(c *Ctx, r *Report) {
+	const rule = "R-CUT-TARGET-OWN"
+	cutFn := c.fn("cut")
+	if cutFn == nil {
+		r.undecided(rule, "anchor:cut", "-", "locate the cut constructor", "not found")
+		return
+	}
+	desc := "the target of a cut is a barrier received as a parameter or a frame built by the function itself"
+	// constructors: functions whose every return is a fresh &Promise
+	isCtor := func(f *ssa.Function) bool {
+		if f == nil || f.Blocks == nil || !c.isLibPkg(funcPkg(f)) {
+			return false
+		}
+		fresh := true
+		nret := 0
+		eachInstr(f, func(in ssa.Instruction) {
+			ret, ok := in.(*ssa.Return)
+			if !ok || len(ret.Results) != 1 {
+				return
+			}
+			nret++
+			for _, l := range c.originSet(ret.Results[0]) {
+				if _, ok := l.(*ssa.Alloc); !ok {
+					fresh = false
+				}
+			}
+		})
+		return fresh && nret > 0
+	}
+	n := 0
+	for _, fn := range c.LibFuncs() {
+		seen := 0
+		eachInstr(fn, func(in ssa.Instruction) {
+			call, ok := in.(*ssa.Call)
+			if !ok || call.Call.StaticCallee() != cutFn || len(call.Call.Args) < 1 {
+				return
+			}
+			n++
+			seen++
+			key := fmt.Sprintf("%s/cut#%d", fname(fn), seen)
+			var offending ssa.Value
+			for _, l := range c.originSet(call.Call.Args[0]) {
+				switch x := l.(type) {
+				case *ssa.Parameter, *ssa.Alloc:
+				case *ssa.Const:
+				case *ssa.Call:
+					if !isCtor(x.Call.StaticCallee()) {
+						offending = l
+					}
+				case *ssa.UnOp:
+					// a field of a promise (p.cutParent) handed on
+				default:
+					offending = l
+				}
+			}
+			if offending == nil {
+				r.ok(rule, key, c.at(in), desc, "parameter, own frame or constructor result", true)
+			} else {
+				r.bad(rule, fmt.Sprintf("%s/cut-target", fname(fn)), c.at(in), desc, "the target is "+valName(offending)+", the promise of a goal that has been run: a cut inside that goal has already popped it, and this cut then empties the whole stack (older choice points and enclosing catch/3 frames are lost)")
+			}
+		})
+	}
+	r.analysed(rule, fmt.Sprintf("%d calls of the cut constructor", n))
+}
+
+// ---------------------------------------------------------------------------
+// R-FORCE-ERR-PROPAGATED (C13; added after seed C13d): a nested trampoline reports cancellation the only way
+// it can - as the error result of Force. Every call of the trampoline made by the library hands that error
+// on: on every path from the call to an exit of the function, either the error is known to be nil, or the
+// exit's results are computed from it (returned, wrapped in an Error promise, stored where the caller reads
+// it). A handler that sorts errors by kind and has no arm for "anything else" (a type switch with
+// `case Exception` and `case nil` only) lets context.Canceled fall through: the load goes on as if the
+// hook had not applied and ExecContext returns nil.
+
+func ruleForceErrPropagated(c *Ctx, r *Report) {
+	const rule = "R-FORCE-ERR-PROPAGATED"
+	tr := c.trampoline()
+	if tr == nil {
+		r.undecided(rule, "anchor:trampoline", "-", "locate the trampoline", "not found")
+		return
+	}
+	desc := "the error of a nested trampoline is handed on unless it is known to be nil"
+	n := 0
+	for _, fn := range c.LibFuncs() {
+		seen := 0
+		eachInstr(fn, func(in ssa.Instruction) {
+			call, ok := in.(*ssa.Call)
+			if !ok || call.Call.StaticCallee() != tr {
+				return
+			}
+			var errVal ssa.Value
+			if refs := call.Referrers(); refs != nil {
+				for _, ref := range *refs {
+					if ex, ok := ref.(*ssa.Extract); ok && isErrorType(ex.Type()) {
+						errVal = ex
+					}
+				}
+			}
+			n++
+			seen++
+			key := fmt.Sprintf("%s/Force#%d", fname(fn), seen)
+			// rendering a term into a local buffer (for a message, for TermString) runs no search: the promise
+			// comes straight from the write_term/3 built-in with the trivial continuation
+			if wt := c.registeredFn("write_term", 3); wt != nil && len(call.Call.Args) > 0 {
+				render := true
+				for _, l := range c.originSet(call.Call.Args[0]) {
+					if cl, _ := callOfValue(l); cl == nil || cl.Call.StaticCallee() != wt {
+						render = false
+					}
+				}
+				if render {
+					r.ok(rule, key, c.at(in), desc, "not a search: write_term/3 rendering a term into a local buffer", false)
+					return
+				}
+			}
+			if errVal == nil {
+				r.bad(rule, fmt.Sprintf("%s/Force", fname(fn)), c.at(in), desc, "the error result of the nested trampoline is dropped")
+				return
+			}
+			derived := func(v ssa.Value) bool {
+				hit := false
+				seenV := map[ssa.Value]bool{}
+				var walk func(x ssa.Value, d int)
+				walk = func(x ssa.Value, d int) {
+					if x == nil || seenV[x] || d > 16 || hit {
+						return
+					}
+					seenV[x] = true
+					if x == errVal {
+						hit = true
+						return
+					}
+					switch y := x.(type) {
+					case *ssa.Phi:
+						for _, e := range y.Edges {
+							walk(e, d+1)
+						}
+					case *ssa.MakeInterface:
+						walk(y.X, d+1)
+					case *ssa.ChangeInterface:
+						walk(y.X, d+1)
+					case *ssa.TypeAssert:
+						walk(y.X, d+1)
+					case *ssa.Extract:
+						walk(y.Tuple, d+1)
+					case *ssa.Call:
+						for _, a := range y.Call.Args {
+							walk(a, d+1)
+						}
+					case *ssa.UnOp:
+						walk(y.X, d+1)
+						if cell := c.varCell(y.X); cell != nil {
+							for _, st := range c.storesTo(cell) {
+								walk(st.Val, d+1)
+							}
+						}
+					}
+				}
+				walk(v, 0)
+				return hit
+			}
+			// an exit that hands the error on: a return computed from it, or a store of it before the exit
+			storesErr := map[*ssa.BasicBlock]bool{}
+			eachInstr(fn, func(x ssa.Instruction) {
+				if st, ok := x.(*ssa.Store); ok && derived(st.Val) {
+					storesErr[st.Block()] = true
+				}
+			})
+			isBadExit := func(x ssa.Instruction) bool {
+				ret, ok := x.(*ssa.Return)
+				if !ok {
+					return false
+				}
+				for _, res := range ret.Results {
+					if derived(res) {
+						return false
+					}
+				}
+				return true
+			}
+			avoid := func(x ssa.Instruction) bool {
+				st, ok := x.(*ssa.Store)
+				return ok && derived(st.Val)
+			}
+			miss := errStateReachX(in, errVal, isBadExit, avoid, false, nil, true)
+			if miss == nil {
+				r.ok(rule, key, c.at(in), desc, "every exit reachable with a possibly non-nil error is computed from it", true)
+			} else {
+				r.bad(rule, fmt.Sprintf("%s/Force", fname(fn)), c.at(miss), desc, "this exit is reachable while the error of the nested trampoline may be non-nil, and does not carry it: a cancelled context is taken for 'the goal did not apply'")
+			}
+		})
+	}
+	if n == 0 {
+		r.bad(rule, "scan/nested-force", "-", desc, "the library never calls the trampoline")
+	}
+	r.analysed(rule, fmt.Sprintf("%d calls of the trampoline in the library", n))
+}
+
+// ---------------------------------------------------------------------------
+// R-CATCH-DECLINES (C04; added after seed C04d): "errors raised by built-in predicates are caught in the same
+// way as user balls". The handler of catch/3 declines an error (returns nil, so that the error travels on)
+// for exactly two reasons: the error came through the marker of an exited goal, or the ball does not unify
+// with the catcher. Every return of nil in the handler lies under the fact that the marker's variable is
+// set or that the unification of the catcher failed. Declining by KIND of error (anything that is not an
+// engine.Exception: a Go error from a stream, a loader diagnostic, a recovered panic) makes those errors
+// invisible to every catch/3, catch-all included.
+
+func ruleCatchDeclines(c *Ctx, r *Report) {
+	const rule = "R-CATCH-DECLINES"
+	Catch := c.registeredFn("catch", 3)
+	ctor := c.fn("catch")
+	unify := c.method("Env", "Unify")
+	if Catch == nil || ctor == nil || unify == nil {
+		r.undecided(rule, "anchor", "-", "locate catch/3, the recovering-frame constructor and Env.Unify", "not found")
+		return
+	}
+	var handler *ssa.Function
+	eachInstr(Catch, func(in ssa.Instruction) {
+		if call, ok := in.(*ssa.Call); ok && call.Call.StaticCallee() == ctor && len(call.Call.Args) == 2 {
+			for _, l := range c.originSet(call.Call.Args[0]) {
+				if mc, ok := l.(*ssa.MakeClosure); ok {
+					handler = mc.Fn.(*ssa.Function)
+				}
+			}
+		}
+	})
+	if handler == nil {
+		r.undecided(rule, "anchor:handler", c.Pos(Catch.Pos()), "locate the handler of catch/3", "not found")
+		return
+	}
+	desc := "the handler of catch/3 declines only an error that came through the marker or a ball that does not unify with the catcher"
+	n := 0
+	eachInstr(handler, func(in ssa.Instruction) {
+		ret, ok := in.(*ssa.Return)
+		if !ok || len(ret.Results) != 1 {
+			return
+		}
+		if k, isConst := ret.Results[0].(*ssa.Const); !isConst || k.Value != nil {
+			return
+		}
+		n++
+		key := fmt.Sprintf("%s/decline#%d", fname(handler), n)
+		reason := ""
+		for f := range c.factsAt(in.Block()) {
+			v, pol := f.cond, f.pol
+			if u, ok := v.(*ssa.UnOp); ok && u.Op == token.NOT {
+				v, pol = u.X, !pol
+			}
+			// marker flag: load of a captured bool, true
+			if ld, ok := v.(*ssa.UnOp); ok && ld.Op == token.MUL && pol {
+				if _, isFree := ld.X.(*ssa.FreeVar); isFree {
+					reason = "the marker's variable is set"
+				}
+			}
+			// Unify(...) ok == false
+			if ex, ok := v.(*ssa.Extract); ok && !pol {
+				if call, ok := ex.Tuple.(*ssa.Call); ok && call.Call.StaticCallee() == unify {
+					reason = "the catcher does not unify with the ball"
+				}
+			}
+		}
+		if reason != "" {
+			r.ok(rule, key, c.at(in), desc, reason, true)
+		} else {
+			r.bad(rule, fmt.Sprintf("%s/decline", fname(handler)), c.at(in), desc, "the handler declines for another reason: such errors pass every catch/3, catch-all included, and end the query with the raw error")
+		}
+	})
+	if n == 0 {
+		r.bad(rule, fname(handler)+"/decline", c.Pos(handler.Pos()), desc, "the handler never declines: every catch/3 would take every ball")
+	}
+	r.analysed(rule, fname(handler))
+}
